@@ -5,7 +5,7 @@
    object and mapped types, type aliases with defaulted parameters, `import type` and `export type`
    statements), where well-formed is a DECIDABLE check (Spec/TsSyn.v) evaluated on every corpus export on
    every run.  Besides, every real file is parsed by an independent reader (tools/tsparse.py). *)
-From TsRs Require Import Base.Str Base.Outcome Gen.Tables Model.Case Model.TsAst Model.Rust Model.Docs Model.Gen Model.Path Model.Merge Model.MergeSpec Model.GenExport Spec.TsFree Spec.TsSem Spec.TsGrammar Spec.TsSyn Proofs.Export_shape_proofs Proofs.Grammar_proofs Proofs.Grammar_export_proofs.
+From TsRs Require Import Base.Str Base.Outcome Gen.Tables Model.Case Model.TsAst Model.Rust Model.Docs Model.Gen Model.Path Model.Merge Model.MergeSpec Model.GenExport Spec.TsFree Spec.TsSem Spec.TsGrammar Spec.TsSyn Proofs.Export_shape_proofs Spec.GenClean Proofs.Grammar_proofs Proofs.Grammar_export_proofs Proofs.Gen_syn_proofs.
 From Coq Require Import List.
 Import ListNotations.
 
@@ -66,6 +66,65 @@ Theorem C04_merged_file_parses :
     module is_alnum is_numeric (canonical_file items).
 Proof. exact canonical_file_in_grammar. Qed.
 
+(* the derive builds only checked trees from clean names: for EVERY environment whose definitions pass the boolean
+   `def_cleanb` (Spec/GenClean.v: declarable type and parameter names; property names, variant names and tag keys that
+   need no escaping; no `type = ".."` text and no `flatten`; every shape, generics with defaults, `as`, `inline`,
+   `optional`, the four enum representations, `skip`, `untagged`, documentation of ANY content), every definition of it and
+   every fuel: if decl() answers, the declaration passes the check and its documentation is one comment block .. *)
+Theorem C04_generated_declaration_is_checked :
+  forall is_upper is_alnum is_numeric R fuel id d dc,
+    classes_ok is_alnum is_numeric = true ->
+    clean_envb is_upper is_alnum is_numeric R = true ->
+    Rust.lookup R id = Some d ->
+    decl_of is_upper is_alnum is_numeric R fuel d = Ok dc ->
+    decl_ok is_alnum is_numeric dc = true /\ docs_okb (d_docs dc) = true.
+Proof. intros iu ia inu R fuel id d dc Hc HR. exact (decl_of_checked iu ia inu Hc R HR fuel id d dc). Qed.
+
+(* .. hence its text is a type alias declaration of the grammar, without any per-case check *)
+Theorem C04_generated_declaration_parses :
+  forall is_upper is_alnum is_numeric R fuel id d dc,
+    classes_ok is_alnum is_numeric = true ->
+    clean_envb is_upper is_alnum is_numeric R = true ->
+    Rust.lookup R id = Some d ->
+    decl_of is_upper is_alnum is_numeric R fuel d = Ok dc ->
+    alias is_alnum is_numeric (print_decl dc).
+Proof.
+  intros iu ia inu R fuel id d dc Hc HR Hl H. apply decl_in_grammar; [exact Hc|].
+  exact (proj1 (decl_of_checked iu ia inu Hc R HR fuel id d dc Hl H)).
+Qed.
+
+(* the hypothesis is satisfiable: a generic struct with a quoted key, documentation holding a comment terminator, an
+   inlined reference and an optional field, and an internally tagged enum over it; decl() answers for both *)
+Module C04_clean.
+Local Open Scope string_scope.
+Definition l (s : String.string) : str := lit s.
+Definition al := fun c => (is_ascii_upper c || is_ascii_lower c || is_ascii_digit c)%bool.
+Definition fd (n : String.string) (t : rty) (inl : bool) (o : optional) (docs : list str) : field :=
+  {| f_ident := l n; f_ty := t; f_serde_ty := t; f_rename := None; f_skip := false; f_inline := inl; f_flatten := false;
+     f_optional := o; f_type := None; f_docs := docs; f_skip_none := false |}.
+Definition ca (n : String.string) (ra : option rule) (ps : list (str * option rty)) : cattrs :=
+  {| c_ident := l n; c_rename := None; c_rename_all := ra; c_tag := None; c_optional_fields := NotOptional; c_docs := [l "a */ b"%string];
+     c_export_to := None; c_type := None; c_as := None; c_params := ps |}.
+Definition Inner := DStruct (ca "Inner" (Some Kebab) [(l "T"%string, Some (RLeaf LBool))])
+  (SNamed [fd "first_name" (RParam 0) false NotOptional [l "/ x"%string]; fd "n" (ROption (RLeaf LString)) false (Optional false) []]).
+Definition Outer := DEnum (ca "Outer" None []) (Internal (l "kind"%string)) None
+  [{| v_ident := l "A"%string; v_shape := SNamed [fd "inner" (RNamed (l "Inner"%string) [RLeaf LFloat]) true NotOptional []]; v_rename := None;
+      v_rename_all := None; v_skip := false; v_untagged := false; v_type := None; v_as := None |};
+   {| v_ident := l "B"%string; v_shape := SUnit; v_rename := Some (l "b c"%string); v_rename_all := None; v_skip := false;
+      v_untagged := false; v_type := None; v_as := None |}].
+Definition R : env := [(l "Inner"%string, Inner); (l "Outer"%string, Outer)].
+End C04_clean.
+Example C04_clean_nonvacuous :
+  clean_envb is_ascii_upper C04_clean.al is_ascii_digit C04_clean.R = true /\
+  omap print_decl (decl_of is_ascii_upper C04_clean.al is_ascii_digit C04_clean.R 5 C04_clean.Outer) =
+    Ok (lit "type Outer = { ""kind"": ""A"", inner: { 
+/**
+ * / x
+ */
+""first-name"": number, n?: string, }, } | { ""kind"": ""b c"" };"%string) /\
+  (exists dc, decl_of is_ascii_upper C04_clean.al is_ascii_digit C04_clean.R 5 C04_clean.Inner = Ok dc).
+Proof. split; [vm_compute; reflexivity|]. split; [vm_compute; reflexivity|]. eexists. vm_compute. reflexivity. Qed.
+
 (* the check is satisfiable by a declaration with documentation, quoted keys, a mapped type, a union of
    literals, a defaulted parameter; and it rejects a name holding a double quote and a reserved word *)
 Example C04_syntax_check_nonvacuous :
@@ -85,6 +144,8 @@ Example C04_syntax_check_nonvacuous :
 Proof. repeat split; vm_compute; reflexivity. Qed.
 
 Print Assumptions C04_export_layout.
+Print Assumptions C04_generated_declaration_is_checked.
+Print Assumptions C04_generated_declaration_parses.
 Print Assumptions C04_printed_type_parses.
 Print Assumptions C04_printed_decl_parses.
 Print Assumptions C04_export_parses.
